@@ -22,8 +22,12 @@ def run(ctx):
     # that can unblock it is unknown); and the walk back to a point that may still be changed
     pathrules.E1(ctx)
     pathrules.B1(ctx)
+    # ... and survives until it is explored: the explored alternative is retired before the next one is promoted
+    pathrules.X6(ctx)
     from . import atomics
     atomics.M5b(ctx)
     from . import guardvocab
     guardvocab.G0(ctx, effects={'backtrack', 'record-access', 'branch', 'explore'})
     guardvocab.G1(ctx, effects={'backtrack', 'record-access', 'branch', 'explore'})
+    guardvocab.G2(ctx, scopes=('rt::object::Ref', 'rt::access::', 'rt::path::', 'rt::execution::Execution::schedule', 'rt::arc::State::set_last_access'))
+    guardvocab.G3(ctx, scopes=('rt::object::Ref', 'rt::access::', 'rt::path::', 'rt::execution::Execution::schedule', 'rt::arc::State::set_last_access'))
